@@ -210,6 +210,28 @@ pub fn scripts(tier: Tier) -> Vec<Script> {
         acts.push(tx(vec![OpSpec::put(&["b"], "k4", "z*290"), OpSpec::del(&["b"], "k0")]));
         out.push(Script { name, cfg: small(1024, 64), actions: acts });
     }
+    // headers moved (with the handle closed) into the slots the pinned release would have used for
+    // them - a no-op unless the rule that picks the slot of a commit has changed - then more commits:
+    // a file written by the pinned release must be continued without ever overwriting the live header
+    for (name, extra) in [("pinned-slots-then-updates", 0usize), ("pinned-slots-after-odd-commits-then-updates", 1)] {
+        let mut acts = vec![
+            tx({
+                let mut v = vec![OpSpec::bucket("create", &[], "b")];
+                for k in crate::drivers::KV_KEYS {
+                    v.push(OpSpec::put(&["b"], k, "w*300"));
+                }
+                v
+            }),
+            tx(vec![OpSpec::put(&["b"], "k0", "y*310"), OpSpec::put(&["b"], "k3", "u*300")]),
+        ];
+        for _ in 0..extra {
+            acts.push(tx(vec![OpSpec::put(&["b"], "k1", "z*290")]));
+        }
+        acts.push(Action::PinnedLayout);
+        acts.push(tx(vec![OpSpec::put(&["b"], "k2", "y*310"), OpSpec::put(&["b"], "k5", "u*300")]));
+        acts.push(tx(vec![OpSpec::put(&["b"], "k4", "z*290"), OpSpec::del(&["b"], "k0")]));
+        out.push(Script { name, cfg: small(1024, 64), actions: acts });
+    }
     // page sizes that are not multiples of the 512-byte sector: two-entry leaves that end within the
     // last bytes of their second page, rewritten into freed pages next to live ones
     for (name, ps, a, b) in [("p5000-nodes-ending-near-a-page-end", 5000u64, "c*4900", "d*4900"), ("p1032-nodes-ending-near-a-page-end", 1032, "c*980", "d*980")] {
